@@ -1,4 +1,5 @@
 CONSTANTS
+Deep = 0
 Mutant = 2
 INIT Init
 NEXT Next
